@@ -270,7 +270,7 @@ def _run(tier, seed, harness, d):
     # vacuity guard: the interesting classes must have been executed on the real code
     need = ["dist:fees>0", "dist:fees=0", "dist:power>0", "dist:power=0", "mint:reward>0", "mint:reward=0", "BeginBlock:none",
             "dist:staker-listed-twice", "dist:3-validators", "Burn:ok", "FeeIncome:ok", "Jail:ok",
-            "dist:validator-with-power-but-zero-staker-value", "dist:zero-staker-value,rate<100%,fees>0", "UpdateParams:ok",
+            "dist:validator-with-power-but-zero-staker-value", "dist:zero-staker-value,rate<100%,fees>0", "UpdateParams:ok", "UpdateParamsDropped:ok",
             # boundary values of every parameter of the formula, with fees > 0 and positive total power
             "dist:tax=0,fees>0,power>0", "dist:tax=mid,fees>0,power>0", "dist:tax=100%,fees>0,power>0",
             "dist:live,commission=0", "dist:live,commission=mid", "dist:live,commission=100%",
